@@ -27,11 +27,16 @@ Call == /\ Is("Call") /\ Ev.peer
            IN /\ st' = r.next
               /\ bad' = bad \cup (IF Ev.result # r.class THEN {<<"class", l, Ev.msg, r.class, Ev.result>>} ELSE {})
                             \cup (IF Ev.crashed THEN {<<"crash", l>>} ELSE {})
+\* C16 under concurrent arrival: many callers at once, peers and others.  No order is known between these calls and none is needed:
+\* whatever the interleaving, a caller that is not a peer is refused and is handed no share.
+ConcCall == /\ Is("ConcCall")
+            /\ bad' = bad \cup (IF ~Ev.peer /\ (Ev.result = "ok" \/ Ev.got_share) THEN {<<"nonpeer", l, Ev.msg, Ev.result>>} ELSE {})
+            /\ UNCHANGED st
 Exists == /\ Is("Exists")
           /\ bad' = IF st[Ev.account].exists = Ev.exists THEN bad ELSE bad \cup {<<"exists", l, Ev.account>>}
           /\ UNCHANGED st
-Other == l <= Len(Trace) /\ Ev.ev \notin {"Begin", "Call", "Exists"} /\ l' = l + 1 /\ UNCHANGED <<st, bad>>
-Next == Begin \/ Call \/ NonPeerCall \/ Exists \/ Other
+Other == l <= Len(Trace) /\ Ev.ev \notin {"Begin", "Call", "ConcCall", "Exists"} /\ l' = l + 1 /\ UNCHANGED <<st, bad>>
+Next == Begin \/ Call \/ NonPeerCall \/ ConcCall \/ Exists \/ Other
 Spec == Init /\ [][Next]_vars
 HighWater == TLCSet(1, IF l > TLCGet(1) THEN l ELSE TLCGet(1))
 Accepted == TLCGet(1) = Len(Trace) + 1
